@@ -345,6 +345,13 @@ fn c11_table_pending() {
     let keep = cmd.clone();
     let sys = Sys::new();
     let mut set = TrapSet::default();
+    // an EXIT trap is a record that is not a signal: it must not get in the way of handing out caught signals
+    // (added after seed C11-r4-take-caught-signal-stops-at-exit). It is set FIRST: the stand-in map of T1b iterates in
+    // slot order, and `Condition::Exit` is the smallest key, so this is also the iteration order of the real BTreeMap.
+    let exit_trap: bool = kani::any();
+    if exit_trap {
+        now(set.set_action(&sys, Condition::Exit, Action::Command(cmd.clone()), Location::default(), false)).unwrap();
+    }
     now(set.set_action(&sys, SIGUSR1, Action::Command(cmd.clone()), Location::default(), false)).unwrap();
     now(set.set_action(&sys, SIGTERM, Action::Command(cmd.clone()), Location::default(), false)).unwrap();
     let (c1, c2, c3): (bool, bool, bool) = (kani::any(), kani::any(), kani::any());
@@ -380,6 +387,7 @@ fn c11_table_pending() {
     assert!(set.take_signal_if_caught(SIGUSR1).is_none(), "C11 nothing left pending");
     kani::cover!(c1 && c2, "two different pending signals");
     kani::cover!(other && c1, "trap command between delivery and hand-out");
+    kani::cover!(exit_trap && c1 && c2, "EXIT trap present while two signals are pending");
     std::mem::forget(set);
     std::mem::forget(keep);
 }
